@@ -7,6 +7,7 @@ open NasdaqModel in
 def appWitnesses : List (String × List App.Ev) :=
   [("C04App-late-cancel", Witness.C04App.history),
    ("C05App-close-from-handler", Witness.C05App.historyA),
+   ("C05App-close-from-handler-race", Witness.C05App.historyC),
    ("C05App-cleanup-close", Witness.C05App.historyB)]
 def main : IO Unit :=
   NasdaqModel.Driver.mainLoop [NasdaqModel.Driver.SessD.handle, NasdaqModel.Driver.AppD.handleWith appWitnesses]
